@@ -19,6 +19,9 @@ type op struct {
 	J int    `json:"j"`
 	N int    `json:"n"`
 	X string `json:"x"`
+	// Rw: render the operation in its neutralised form (through a temporary); set only when a
+	// deviating history is tested for attribution to a construct-shaped known finding
+	Rw bool `json:"rw,omitempty"`
 }
 
 const progHead = `package main
@@ -304,6 +307,9 @@ func stmt(o op) string {
 		if o.X == "A" {
 			return fmt.Sprintf("%s = [2]int{%d, %d}\ndump(v)\n", D, o.V, o.V+1)
 		}
+		if o.Rw {
+			return fmt.Sprintf("{\n\ttmp := S{N: %d, A: [2]int{%d, 0}}\n\t%s = tmp\n}\ndump(v)\n", o.V, o.V, D)
+		}
 		return fmt.Sprintf("%s = S{N: %d, A: [2]int{%d, 0}}\ndump(v)\n", D, o.V, o.V)
 	case "SetMapEntry":
 		switch o.X {
@@ -396,6 +402,9 @@ func stmt(o op) string {
 	case "CallFunc":
 		return fmt.Sprintf("{\n\tr := %s()\n\tdump(v, r)\n}\n", D)
 	case "Box":
+		if o.Rw {
+			return fmt.Sprintf("{\n\ttmp := %s\n\te = tmp\n}\ndump(v)\n", S)
+		}
 		return fmt.Sprintf("e = %s\ndump(v)\n", S)
 	case "BindMV":
 		if o.X == "sum" {
